@@ -65,7 +65,7 @@ func conflictSet(i int64, seed int64) []file {
 	case 0: // equal identity names in several modules
 		fs = append(fs, file{"a.yang", "module a { namespace \"urn:a\"; prefix a; identity base; identity x { base base; } identity y { base x; } }"})
 		for k, n := range []string{"b", "c", "d"}[:1+r.Intn(3)] {
-			fs = append(fs, file{n + ".yang", fmt.Sprintf("module %s { namespace \"urn:%s\"; prefix %s; import a { prefix a; } identity %s { base a:base; } identity y { base a:%s; } leaf r%d { type identityref { base a:base; } } }", n, n, n, pick("x", "y", "z"), pick("x", "base"), k)})
+			fs = append(fs, file{n + ".yang", fmt.Sprintf("module %s { namespace \"urn:%s\"; prefix %s; import a { prefix a; } identity %s { base a:base; } identity y { base a:%s; } leaf r%d { type identityref { base a:base; } } }", n, n, pick(n, "same", "same"), pick("x", "y", "z"), pick("x", "base"), k)})
 		}
 	case 1: // several deviate kinds in one deviation
 		fs = append(fs, file{"m.yang", "module m { namespace \"urn:m\"; prefix m; leaf l { type string; default x; } leaf-list ll { type string; max-elements 4; } }"})
